@@ -6,5 +6,5 @@ import "verif/harness/rpckit"
 
 func main() {
 	rpckit.Main(rpckit.Focus{Comp: "rpcsurvive", Kind: "survive"},
-		"per server (four Streamable HTTP configurations in-process, legacy SSE and stdio each in a child process): the shuffled union of all structural mutations (member x 7 JSON kinds, removed, duplicated, re-spelled), notifications, responses to never-sent requests, truncated / random bytes, numbers float64 cannot hold, 10001-deep values, valid requests; then verb x path x session x Accept x body products and raw TCP garbage; every run starts with an ordered sequence of repeated life-cycle messages and contains 2 MiB and ~5 MiB lines / bodies (valid and garbage); after every 25 inputs the reference request must get its reference answer, a ping must succeed on the connection in use and on a fresh one, and a complete new session (initialize, notifications/initialized, tools/list, 5 s per step) must succeed on a new connection - otherwise the last inputs are replayed one at a time on a fresh server to name the culprit; panic text on the ErrorLog, process death, library goroutine census after quiescence; every exchange is one model line; non-trivial = a message was emitted or the input was refused with a status >= 400")
+		"per server (four Streamable HTTP configurations in-process, legacy SSE and stdio each in a child process): the shuffled union of all structural mutations (member x 7 JSON kinds, removed, duplicated, re-spelled), notifications, responses to never-sent requests, truncated / random bytes, numbers float64 cannot hold, 10001-deep values, valid requests; then verb x path x session x Accept x body products, request headers from their grammars (Accept: media ranges x parameters with and without '=', empty values, ';;', bare 'q', long, non-ASCII; Content-Type, Mcp-Session-Id, Last-Event-ID) each with bodies of every kind, raw TCP garbage, and a stalled peer (never reads, several hundred requests of each answer class, disconnects: the census of library goroutines per starting function must return to its baseline and a fresh client must be served); every run starts with an ordered sequence of repeated life-cycle messages and contains 2 MiB and ~5 MiB lines / bodies (valid and garbage); after every 25 inputs the reference request must get its reference answer, a ping must succeed on the connection in use and on a fresh one, and a complete new session (initialize, notifications/initialized, tools/list, 5 s per step) must succeed on a new connection - otherwise the last inputs are replayed one at a time on a fresh server to name the culprit; panic text on the ErrorLog, process death, library goroutine census after quiescence; every exchange is one model line; non-trivial = a message was emitted or the input was refused with a status >= 400")
 }
